@@ -196,6 +196,11 @@ class EquationSolver(object):
                 did_any = True
                 time_zero_constants[var] = val
                 variables[var] = [val, ]
+        # A time-zero value that is not a finite number (an overflow in a constant expression) is not a starting point:
+        # it would be carried into the solved periods by a lag.
+        for var, val in time_zero_constants.items():
+            if isinstance(val, float) and (val != val or abs(val) == float('inf')):
+                raise ValueError('Non-finite value computed for variable ' + var + ' at time zero')
         self.TimeSeries = variables
 
     def CalculateInitialSteadyState(self):
